@@ -95,6 +95,21 @@ def gen(r, fp: Dict[str, Any]) -> Dict[str, Any]:
           "handlers": handlers, "jobs": jobs, "idle": r.choice([0, 0, 1, 3]) if rt else 0,
           "exit": fp["exit"], "exit_at": at, "stop_on_handler_exceptions": fp["exit"] == "handler_error",
           "custom_log_factory": r.random() < 0.4}
+    if fp["producer_fail"] == "main" and fp["exit"] == "handler_error" and nprod >= 2 and r.random() < 0.5:
+        # a producer fails; while the others are still winding down (slow reaction to their cancellation) a handler
+        # that was in flight fails too and, with stop-on-error armed, requests a stop: the producer's error came first
+        # and is what run() must raise
+        sc["late_stop"] = True
+        producers[failing]["fail_at"] = 0.4
+        other = (failing + 1) % nprod
+        for i, p in enumerate(producers):
+            if i != failing:
+                p["cancel_dur"] = 0.5
+                p["main_dur"] = 1000.0
+        producers[other]["events"] = [[0.0, 0.0]] + producers[other]["events"]
+        handlers[other][0].update({"dur": 0.6, "steps": 0, "late_fail": True})
+        sc["exit_at"] = 50.0
+    sc["wrap_factory_in_handler"] = r.random() < 0.25
     # an idle handler may raise too: that is neither a producer's error nor the caller's cancellation
     sc["idle_fail"] = [n for n in range(8) if r.random() < 0.25] if sc["idle"] else []
     if fp["exit"] == "handler_error":
@@ -120,6 +135,7 @@ class Run:
         self.max_inflight = 0
         self.idle_while_busy = 0
         self.idle_failures = 0
+        self.factory_wrapped = False
         self.raised_by_producer: Dict[int, BaseException] = {}
         self.stop_requested_at: Optional[float] = None
         self.cancel_requested_at: Optional[float] = None
@@ -163,7 +179,7 @@ class Run:
 
         self.vt = vt
         eid = itertools.count(1)
-        designated = {"handler": False, "job": False}
+        designated = {"handler": bool(sc.get("late_stop")), "job": False}
 
         class P(event.Producer):
             def __init__(self, pid, spec):
@@ -190,6 +206,9 @@ class Run:
                     run.ptrace.append((vt(), self.pid, name + "_end"))
                 except asyncio.CancelledError:
                     run.ptrace.append((vt(), self.pid, name + "_cancelled"))
+                    if name == "main" and self.spec.get("cancel_dur"):
+                        await asyncio.sleep(self.spec["cancel_dur"])      # e.g. closing a connection gracefully
+                        run.ptrace.append((vt(), self.pid, "main_wound_down"))
                     raise
 
             async def initialize(self):
@@ -234,7 +253,7 @@ class Run:
             p.source = src
             self.producers.append(p)
             for hi, h in enumerate(sc["handlers"][pid]):
-                self.d.subscribe(src, self._mk_handler(pid, hi, h, designated))
+                self.d.subscribe(src, bt.shaped(self._mk_handler(pid, hi, h, designated), pid + 2 * hi))
 
         def mk_job(ji, spec):
             async def job():
@@ -268,7 +287,7 @@ class Run:
                 when = bdt.utc_now() + datetime.timedelta(seconds=spec["at"])
             else:
                 when = datetime.datetime(2000, 1, 1, tzinfo=datetime.timezone.utc) + datetime.timedelta(seconds=spec["at"])
-            self.d.schedule(when, mk_job(ji, spec))
+            self.d.schedule(when, bt.shaped(mk_job(ji, spec), ji))
         if sc["exit"] == "stop_job" and rt:
             # a dedicated job that requests the stop at the scripted instant
             async def stopper_job():
@@ -282,7 +301,7 @@ class Run:
             self.d.schedule(bdt.utc_now() + datetime.timedelta(seconds=sc["exit_at"]), stopper_job)
         if rt:
             for k in range(sc["idle"]):
-                self.d.subscribe_idle(self._mk_idle(k))
+                self.d.subscribe_idle(bt.shaped(self._mk_idle(k), k + 1))
 
     def _mk_idle(self, k):
         run = self
@@ -328,7 +347,17 @@ class Run:
                 if spec["dur"]:
                     await asyncio.sleep(spec["dur"])
                 run.htrace.append((run.vt(), "h", (pid, hi, e.eid), "end"))
-                if n in spec["fail_on"]:
+                if sc.get("wrap_factory_in_handler") and not run.factory_wrapped:
+                    # the logging-cookbook pattern: a handler chains its own record factory on the current one
+                    run.factory_wrapped = True
+                    cur = logging.getLogRecordFactory()
+
+                    def chained(*a, **kw):
+                        rec = cur(*a, **kw)
+                        rec.handler_tag = "h"
+                        return rec
+                    logging.setLogRecordFactory(chained)
+                if n in spec["fail_on"] or (spec.get("late_fail") and n == 0):
                     run.handler_failures += 1
                     if sc["stop_on_handler_exceptions"] and run.stop_requested_at is None:
                         run.stop_requested_at = run.vt()
@@ -396,7 +425,9 @@ class Run:
             loop.run_until_complete(main())
         # ---- logging behaves as before the run
         f1 = logging.getLogRecordFactory()
-        if f1 is not f0:
+        if f1 is not f0 and not self.factory_wrapped:
+            # (a factory a handler installed itself during the run is the application's own business: then only the
+            # behaviour is judged - real timestamps, no failure)
             self.log_problems.append("log record factory was not restored")
         try:
             rec = logging.getLogger("vf.c14.probe").makeRecord("vf.c14.probe", logging.WARNING, __file__, 1, "probe %s", ("x",), None)
@@ -487,7 +518,7 @@ class Run:
                 out.append(("cancellation_swallowed", "run() returned although it was cancelled from outside"))
         # 4. promptness (virtual seconds)
         if causes and self.ended_at is not None and first != "exhausted":
-            budget = sum(p["fin_dur"] for p in sc["producers"]) + 1.0
+            budget = sum(p["fin_dur"] for p in sc["producers"]) + 1.0 + max([p.get("cancel_dur", 0.0) for p in sc["producers"]])
             if self.ended_at - causes[0][0] > budget + 1e-6:
                 out.append(("not_prompt", f"{first} at {causes[0][0]}s but run() ended at {self.ended_at}s "
                                           f"(budget {budget}s): in-flight handlers awaited instead of cancelled?"))
